@@ -1,6 +1,7 @@
 package main
 
 import (
+	"google.golang.org/protobuf/reflect/protoreflect"
 	"fmt"
 	"io"
 	"math/rand/v2"
@@ -30,7 +31,7 @@ func init() {
 
 var c18Classes = []string{"multi-content-type", "connect-marker-non-get", "unknown-rpc-path", "unknown-rpc-path+handler", "rest-no-route", "rest-wrong-method", "rpc-non-post",
 	"connect-get-side-effects", "stream-type-unsupported", "bidi-http1", "grpc-http1", "malformed-timeout", "content-encoding-on-enveloped", "unknown-compression", "unknown-codec",
-	"rest-only-no-binding", "bad-leading-message", "no-flusher",
+	"rest-only-no-binding", "bad-leading-message", "unroutable-leading-message", "no-flusher",
 	"exit:success", "exit:mid-request-error", "exit:mid-response-error", "exit:handler-panic", "exit:body-error", "exit:success"}
 
 func runC18(c *Ctx, i int, r *rand.Rand) {
@@ -236,6 +237,24 @@ func runC18(c *Ctx, i int, r *rand.Rand) {
 				}
 			}
 			s.Req.UseRawBody, s.Req.RawBody = true, body
+		case "unroutable-leading-message":
+			// the leading message decodes, but a field bound to a multi-segment path variable does not fit the
+			// REST target's template: no request line can be built, so the backend must not be invoked
+			mname := pick(r, []string{"Multi", "TwoSeg"})
+			m := kitchenInfo[mname]
+			form = pick(r, []ClientForm{FGRPC, FGRPCWeb, FConnectUnary})
+			s.Cfg = &SvcConfig{Protocols: []string{"rest"}, Codecs: []string{"json"}, Comps: []string{"gzip"}, Limit: 1 << 20}
+			s.Req = &ClientReq{Form: form, M: m, Codec: pick(r, []string{"proto", "json"}), HTTP2: true, Extra: http.Header{}}
+			msg := genMessage(r, m.In(), genOpts{density: 2, noMaps: true, simpleStr: true})
+			mr := msg.ProtoReflect()
+			sv := mr.Descriptor().Fields().ByName("string_value")
+			if mname == "Multi" {
+				mr.Set(sv, protoreflect.ValueOfString(pick(r, []string{"", "a", "a/x", "a/x/b", "z/x/b/c", "nothing", "a/x/c/d", "b/x/a/q"})))
+			} else {
+				mr.Set(sv, protoreflect.ValueOfString(pick(r, []string{"", "nope", "y/1", "x", "x/1/2"})))
+			}
+			s.Req.Msgs = []protoMsg{msg}
+			s.Req.FrameComp = []bool{false}
 		case "no-flusher":
 			eo.NoFlusher = true
 			// only transcoded requests need the Flusher; make sure a conversion is needed
